@@ -214,6 +214,16 @@ func c09Run(e *core.Env) {
 	xs := Dense(k, w)
 	xs = append(xs, Edge(EdgeExps)...)
 	xs = append(xs, longOperands()...) // more than 128 digits discarded in one rounding
+	// kept coefficients of 20-39 digits with extreme 64-bit word patterns (hi*2^64+lo), one digit to be dropped
+	for _, hi := range []*big.Int{big.NewInt(1), pow2(32), pow2(63), new(big.Int).Sub(pow2(64), big.NewInt(1)), new(big.Int).Sub(pow2(64), big.NewInt(7)), bigOf("4000000000000000000")} {
+		for _, lo := range []*big.Int{big.NewInt(0), big.NewInt(1), pow2(63), new(big.Int).Sub(pow2(64), big.NewInt(1)), new(big.Int).Sub(pow2(64), big.NewInt(3)), new(big.Int).Sub(pow2(64), big.NewInt(11)), bigOf("14446744073709551615")} {
+			c := new(big.Int).Add(new(big.Int).Mul(hi, pow2(64)), lo)
+			for _, d := range []int64{3, 5, 9} {
+				cd := new(big.Int).Add(new(big.Int).Mul(c, big.NewInt(10)), big.NewInt(d))
+				xs = append(xs, FinBig(cd, -1, false), FinBig(cd, -1, true))
+			}
+		}
+	}
 	var ctxs []CtxCase
 	for _, p := range precs {
 		for _, r := range Ranges(p, true) {
